@@ -88,6 +88,12 @@ def r1_direction_wrapper(ctx):
             return state["xrev"], okp
         if t in rev_forms:
             return (not state["xrev"]), okp
+        if isinstance(arg, ast.Subscript) and norm(arg.value) == xv and \
+                isinstance(arg.slice, ast.Name):
+            pv_ = R.reaching_value(arg.slice)
+            if isinstance(pv_, ast.Call) and (call_name(pv_) or "").endswith(
+                    "argsort"):
+                return ("perm", arg.slice.id), okp
         if isinstance(arg, ast.Name) and arg.id in state["views"]:
             return state["views"][arg.id], okp
         return None
@@ -124,6 +130,27 @@ def r1_direction_wrapper(ctx):
             paths.append((state["asc"], state["calls"] + 1, ci[0], True,
                           ci[1], state["stale"], node))
             return
+        if isinstance(v, ast.Subscript) and isinstance(
+                v.slice, (ast.Name, ast.Call)):
+            # result (or direct call) indexed by a permutation
+            inner = v.value
+            src = None
+            if isinstance(inner, ast.Call) and call_name(inner) == mf:
+                ci = call_info(inner, state)
+                if ci is not None:
+                    src = (ci[0], ci[1], state["calls"] + 1)
+            elif isinstance(inner, ast.Name) and inner.id in state["results"]:
+                src = (state["results"][inner.id][0], state["okp"],
+                       state["calls"])
+            if src is not None and isinstance(src[0], tuple):
+                pname = src[0][1]
+                stxt = norm(v.slice)
+                how = "perm_inverse" if stxt in (
+                    f"np.argsort({pname})", f"{pname}.argsort()") else (
+                    "perm_again" if stxt == pname else "perm_other")
+                paths.append((state["asc"], src[2], src[0], how, src[1],
+                              state["stale"], node))
+                return
         t = norm(v)
         for rn, (rrev, orev) in state["results"].items():
             if t == rn:
@@ -221,6 +248,19 @@ def r1_direction_wrapper(ctx):
                   "abscissa", "the orientation test is evaluated again "
                   "after the abscissa name was re-bound to the reversed "
                   "view: the output is never reversed back")
+        if isinstance(in_rev, tuple):
+            ctx.check(out_rev == "perm_inverse", node,
+                      f"{label}: output restored with the inverse "
+                      "permutation",
+                      f"for an {label} abscissa the user function sees the "
+                      f"data sorted by `{in_rev[1]}` and the output is "
+                      + ("indexed by the same permutation again" if out_rev
+                         == "perm_again" else "not restored by its inverse")
+                      + ": the inverse of a sorting permutation is "
+                      f"np.argsort({in_rev[1]}); applying it twice pairs "
+                      "model values with the wrong samples whenever the "
+                      "abscissa is not strictly monotonic")
+            continue
         if a is None:
             ctx.fail(node, f"{label}", "a path returns without the "
                      "orientation of the abscissa having been tested")
